@@ -81,6 +81,12 @@ func TestC12(t *testing.T) {
 		// sets, it must not see those of ns/foo
 		{name: "S6-neighbour-with-a-name-over-63-characters", nodes: nodes, extra: []client.Object{w.NewEDS("ns", longName, "A", w.WithFrequency(0))},
 			first: both("ns/" + longName), alpha: dev(), budget: b},
+		// an ExtendedDaemonSet object that itself carries its neighbour's identity label in metadata.labels (a manifest
+		// derived from an exported object, a common-labels overlay): legal, and it must change nothing
+		{name: "S6-object-carries-neighbours-name-label", nodes: nodes,
+			eds:   []w.EDSOpt{func(e *v1.ExtendedDaemonSet) { e.Labels = map[string]string{v1.ExtendedDaemonSetNameLabelKey: "bar", "team": "x"} }},
+			extra: []client.Object{w.NewEDS("ns", "bar", "A", w.WithFrequency(0))}, raw: true,
+			first: nil, alpha: &w.Alpha{Templates: []string{"B"}}, budget: b},
 		// the user ends the declared migration (removes the annotation) while pods of the old DaemonSet still run: from
 		// then on they are unrelated pods
 		{name: "S6-migration-called-off", nodes: []string{"n1", "n2"}, eds: []w.EDSOpt{w.WithAnnotation(v1.ExtendedDaemonSetOldDaemonsetAnnotationKey, "old"), w.WithRolling("1", "", 0, 0)},
